@@ -204,7 +204,7 @@ func runC10(o Opts) error {
 			if i == n/2 { // every session carries one empty datagram and one of a single byte
 				d = []byte{}
 			} else if i == n/2+1 {
-				d = d[:1]
+				d = []byte{0x17}
 			}
 			ds = append(ds, d)
 			hx = append(hx, hexs(d))
